@@ -334,6 +334,12 @@ GEN_THEOREMS = {
     "C07": ("CoreDhcp.Props.GenAlloc4", ["GEN_a4_allocate_eq", "GEN_a4_toOffset_eq"]),
 }
 GEN_THEOREMS_MORE = [
+    # the set-up (argument validation) functions of all option plugins regenerated (unit setups)
+    ("C19", "CoreDhcp.Props.GenSetups", ['GEN_setup_mtu4_eq', 'GEN_setup_sleep4_eq', 'GEN_setup_sleep6_eq', 'GEN_setup_leasetime4_eq', 'GEN_setup_ipv6only4_eq', 'GEN_setup_autoconfigure4_eq', 'GEN_setup_nbp4_eq', 'GEN_setup_nbp6_eq', 'GEN_setup_netmask4_eq', 'GEN_setup_netmask4_eq_wf', 'GEN_setup_netmask4_needs_len', 'GEN_setup_router4_eq', 'GEN_setup_dns4_eq', 'GEN_setup_dns6_eq', 'GEN_setup_staticroute4_eq', 'GEN_setup_searchdomains4_eq', 'GEN_setup_searchdomains6_eq', 'GEN_setup_router4_accumulates', 'GEN_setup_ipv6only4_keeps', 'GEN_setup_autoconfigure4_keeps', 'GEN_setup_nbp4_keeps66', 'GEN_setup_nbp6_keeps60']),
+    ("C14", "CoreDhcp.Props.GenSetups", ['GEN_setup_serverid4_eq', 'GEN_setup_serverid6_eq']),
+    # the DHCPv6 request handlers of the option plugins regenerated (unit handlers6)
+    ("C17", "CoreDhcp.Props.GenHandlers6", ['GEN_h6_dns_eq', 'GEN_h6_dns_undecap', 'GEN_h6_searchdomains_eq', 'GEN_h6_searchdomains_blind', 'GEN_h6_sleep_eq', 'GEN_h6_sleep_blind', 'GEN_h6_nbp_loop', 'GEN_h6_nbp_eq', 'GEN_h6_nbp_unset', 'GEN_h6_nbp_unset_differs', 'GEN_h6_nbp_undecap']),
+    ("C14", "CoreDhcp.Props.GenHandlers6", ['GEN_h6_serverid_eq', 'GEN_h6_serverid_undecap', 'GEN_h6_serverid_decision']),
     # plugins/prefix: Handle with its three loops and setupPrefix regenerated (unit prefix6)
     ("C08", "CoreDhcp.Props.GenPrefix6", ['GEN_pd_loop1_eq', 'GEN_pd_loop2_eq', 'GEN_pd_loop3_model', 'GEN_pd_loop3_eq', 'GEN_pd_handleIAPD_model', 'GEN_pd_handleIAPD_gen', 'GEN_pd_handleIAPD_eq', 'GEN_pd_handleMsg_model', 'GEN_pd_handleMsg_gen', 'GEN_pd_handleMsg_eq', 'GEN_pd_handle_undecapsulated', 'GEN_pd_handle_total', 'GEN_pd_setup_eq', 'GEN_pd_setup_arity']),
     ("C09", "CoreDhcp.Props.GenPrefix6", ['GEN_pd_loop1_eq', 'GEN_pd_loop2_eq', 'GEN_pd_loop3_model', 'GEN_pd_loop3_eq', 'GEN_pd_handleIAPD_model', 'GEN_pd_handleIAPD_gen', 'GEN_pd_handleIAPD_eq', 'GEN_pd_handleMsg_model', 'GEN_pd_handleMsg_gen', 'GEN_pd_handleMsg_eq', 'GEN_pd_handle_undecapsulated', 'GEN_pd_handle_total', 'GEN_pd_setup_eq', 'GEN_pd_setup_arity']),
